@@ -21,6 +21,7 @@
 package main
 
 import (
+	"bufio"
 	"bytes"
 	"compress/zlib"
 	"context"
@@ -32,6 +33,7 @@ import (
 	"net/http/httptest"
 	"net/url"
 	"os"
+	"os/exec"
 	"path/filepath"
 	"sort"
 	"strconv"
@@ -82,6 +84,8 @@ type input struct {
 	MaxElapMs int     `json:"maxelap"`            // forwarder max-request-elapsed-time in ms (0 = 1ns: no retries)
 	Slots     int     `json:"slots"`              // consolidator slots = parsers
 	Compress  bool    `json:"compress"`
+	Binary    bool    `json:"binary,omitempty"`  // run the real cmd/lambda-extension binary (built from the repo under test) as a child process, configured through a config file + AWS_LAMBDA_RUNTIME_API only
+	NoMFKey   bool    `json:"nomfkey,omitempty"` // binary: leave lambda-extension-manual-flush unset (documented default: true)
 	HTTP      bool    `json:"http,omitempty"`    // enable the statsd server's HTTP ingestion (http-servers) in the extension
 	BG        int     `json:"bg,omitempty"`      // background function goroutines POSTing batches for the whole run
 	BGSize    int     `json:"bgsize,omitempty"`  // series per background batch
@@ -233,12 +237,48 @@ const (
 )
 
 // ---------------------------------------------------------------------------------------
+// the real binary: cmd/lambda-extension of the repo under test (VERIF_REPO, default /repo), built
+// once per harness process
+
+var (
+	binOnce sync.Once
+	binPath string
+	binErr  error
+)
+
+func extensionBinary() (string, error) {
+	binOnce.Do(func() {
+		repo := os.Getenv("VERIF_REPO")
+		if repo == "" {
+			repo = "/repo"
+		}
+		d, err := os.MkdirTemp("", "c20-bin-")
+		if err != nil {
+			binErr = err
+			return
+		}
+		tmpMu.Lock()
+		tmpDirs = append(tmpDirs, d)
+		tmpMu.Unlock()
+		binPath = filepath.Join(d, "lambda-extension")
+		cmd := exec.Command("go", "build", "-o", binPath, "./cmd/lambda-extension")
+		cmd.Dir = repo
+		cmd.Env = append(os.Environ(), "GOFLAGS=-mod=mod", "GOPROXY=off", "CGO_ENABLED=0")
+		if out, err := cmd.CombinedOutput(); err != nil {
+			binErr = fmt.Errorf("%v: %s", err, string(out))
+		}
+	})
+	return binPath, binErr
+}
+
+// ---------------------------------------------------------------------------------------
 // one run
 
 const waitLimit = 10 * time.Second
 
 var runSeq int64
 var portMu sync.Mutex
+var loadMu sync.RWMutex
 var tmpMu sync.Mutex
 var tmpDirs []string
 
@@ -520,20 +560,78 @@ func runScenario(in input) (res result) {
 		Viper:            v,
 		TransportPool:    transport.NewTransportPool(quiet, v),
 	}
-	ext, err := lambda.NewExtension(quiet, srv, lambda.Options{
-		RuntimeAPI:        apiURL.Host,
-		ExecutableName:    "gostatsd-c20",
-		EnableManualFlush: true,
-		TelemetryAddr:     teleAddr,
-	})
-	if err != nil {
-		res.infra = "NewExtension: " + err.Error()
-		return
-	}
 	ctx, cancel := context.WithCancel(context.Background())
 	defer cancel()
 	runDone := make(chan error, 1)
-	go func() { runDone <- ext.Run(ctx) }()
+	if in.Binary {
+		bin, berr := extensionBinary()
+		if berr != nil {
+			mon("cmd/lambda-extension of the repo under test does not build: %v", berr)
+			res.log = lg.freeze()
+			return
+		}
+		var cfg strings.Builder
+		fmt.Fprintf(&cfg, "metrics-addr = %q\nstatser-type = \"logging\"\nflush-interval = \"4ms\"\nmax-parsers = %d\nmax-readers = 1\nreceive-batch-size = 10\n", sock, slots)
+		fmt.Fprintf(&cfg, "lambda-extension-telemetry-address = %q\n", teleAddr)
+		if !in.NoMFKey {
+			cfg.WriteString("lambda-extension-manual-flush = true\n")
+		}
+		fmt.Fprintf(&cfg, "[http-transport]\napi-endpoint = %q\ncompress = %v\nconsolidator-slots = %d\nmax-request-elapsed-time = %q\n", endpoint, in.Compress, slots, maxElapsed.String())
+		if in.FlushMs > 0 {
+			fmt.Fprintf(&cfg, "flush-interval = \"%dms\"\n", in.FlushMs)
+		}
+		cfgPath := filepath.Join(dir, "c20.toml")
+		if err := os.WriteFile(cfgPath, []byte(cfg.String()), 0o600); err != nil {
+			res.infra = err.Error()
+			return
+		}
+		cmd := exec.Command(bin, "--config-path", cfgPath, "--lambda-entrypoint-name", "gostatsd-c20")
+		cmd.Env = append(os.Environ(), "AWS_LAMBDA_RUNTIME_API="+apiURL.Host)
+		cmd.Stdout = io.Discard
+		stderr, perr := cmd.StderrPipe()
+		if perr != nil {
+			res.infra = perr.Error()
+			return
+		}
+		if err := cmd.Start(); err != nil {
+			res.infra = "start: " + err.Error()
+			return
+		}
+		go func() {
+			// the parser's acceptance counter, as the logging statser of the child prints it
+			sc := bufio.NewScanner(stderr)
+			sc.Buffer(make([]byte, 1<<16), 1<<22)
+			for sc.Scan() {
+				line := sc.Text()
+				if i := strings.Index(line, "name=parser.metrics_received"); i >= 0 {
+					if j := strings.LastIndex(line, "value="); j >= 0 {
+						if v, err := strconv.Atoi(strings.TrimSpace(line[j+6:])); err == nil {
+							atomic.AddInt64(accepted, int64(v))
+						}
+					}
+				}
+			}
+			runDone <- cmd.Wait()
+		}()
+		go func() {
+			<-ctx.Done()
+			cmd.Process.Signal(os.Interrupt)
+			time.Sleep(2 * time.Second)
+			cmd.Process.Kill()
+		}()
+	} else {
+		ext, err := lambda.NewExtension(quiet, srv, lambda.Options{
+			RuntimeAPI:        apiURL.Host,
+			ExecutableName:    "gostatsd-c20",
+			EnableManualFlush: true,
+			TelemetryAddr:     teleAddr,
+		})
+		if err != nil {
+			res.infra = "NewExtension: " + err.Error()
+			return
+		}
+		go func() { runDone <- ext.Run(ctx) }()
+	}
 
 	finish := func(expectReturn bool) {
 		if !expectReturn {
@@ -779,6 +877,11 @@ func runScenario(in input) (res result) {
 		// property: the observed POSTs of the initial flush and whether GET /next ever happens are
 		// compared in Coq with what the composed model predicts.
 		quit := func() {
+			// never cancel inside the start window or while the initial Flush may be blocked on the sink:
+			// gostatsd then sends on the closed sink channel and the process panics (shutdown is outside C20)
+			if d := 400*time.Millisecond - time.Since(time.Unix(0, subAt.Load())); subAt.Load() != 0 && d > 0 {
+				time.Sleep(d)
+			}
 			cancel()
 			select {
 			case <-runDone:
@@ -1056,9 +1159,23 @@ func coqObs(e ev) (string, bool) {
 func runOne(in input) hlib.Case {
 	var r result
 	for try := 0; try < 3; try++ {
+		loadMu.RLock()
 		r = runScenario(in)
+		loadMu.RUnlock()
 		if r.infra == "" {
 			break
+		}
+	}
+	// /repo has a start-up race outside C20 (notes/C20.md): under CPU starvation the heartbeat's initial
+	// Flush can run before server.Run has registered the consolidator, and the extension then never asks
+	// for an event.  A start-up deadlock is therefore re-run once with nothing else running; a real defect
+	// (no initial flush, no notification) reproduces, a starved start window does not.
+	if r.infra == "" && len(r.monitors) > 0 && strings.HasPrefix(r.monitors[0], "deadlock: no GET /next within") && strings.HasSuffix(r.monitors[0], "of start-up") {
+		loadMu.Lock()
+		r2 := runScenario(in)
+		loadMu.Unlock()
+		if r2.infra == "" {
+			r = r2
 		}
 	}
 	c := hlib.Case{Input: in, Class: in.Stream + "/" + in.Mode}
@@ -1137,6 +1254,11 @@ func runOne(in input) hlib.Case {
 func genCase(r *hlib.Rand, k int, tier string) input {
 	in := input{Mode: "run", Slots: hlib.Pick(r, []int{1, 1, 2, 4}), Compress: r.Bool(), Stream: "invocations"}
 	switch {
+	case k%20 == 3 || k%20 == 16:
+		// the shipped binary, configured the documented way
+		in.Stream = "binary"
+		in.Binary = true
+		in.NoMFKey = k%20 == 3
 	case k%25 == 13:
 		in.Stream = "dynhdr"
 		in.Mode = "dyn"
@@ -1281,6 +1403,12 @@ func main() {
 				os.Exit(2)
 			}
 			inputs = append(inputs, in)
+		}
+	}
+	for _, in := range inputs {
+		if in.Binary {
+			extensionBinary() // build before anything runs: the build must not compete with the 100 ms start windows
+			break
 		}
 	}
 	par := 10
